@@ -12,6 +12,8 @@ Record step := {
   s_upd : list (key * Z) ;        (* ledger records that changed in this step: their new value (0 = gone) *)
   s_side : list (key * Z) ;       (* validator reward claim records (buckets 10..12) that changed: their new value *)
   s_allow : Z ;                   (* OLT allowance of the step: increase of the accrual counter delegRwz_total_rewards *)
+  s_allowc : list (N * Z) ;       (* allowance of the step in wrapped currencies: (currency, amount) - the value of a lock whose mint
+                                     happens in this step / what the failed redeem being refunded in this step had burnt *)
   s_auth : list N ;               (* owners with authority in this step: accounts whose signature on the (successful)
                                      transaction verifies, the stake address of a signing validator; EndBlock: the stake
                                      address of a validator that received a guilty verdict *)
@@ -77,9 +79,12 @@ Definition stale_funds (after : ledger) (fin : list N) : Z :=
    8  a DeliverTx step RAISED a matured validator reward claim (rwcum_balance_): claims grow in BeginBlock only
       (detail: owner, increase); negative side records are reported as class 5 with their bucket
    16 / 17 = 6 / 7 for an account debited as the beneficiary of a C03.withdraw_funds_negative transaction *)
-Definition allowance (c : N) (a : Z) : Z := if (c =? CUR_OLT)%N then a else 0.
+Definition allowance_c (ac : list (N * Z)) (c : N) : Z :=
+  fold_right (fun x acc => if (x.1 =? c)%N then x.2 + acc else acc) 0 ac.
+Definition allowance (ac : list (N * Z)) (c : N) (a : Z) : Z := (if (c =? CUR_OLT)%N then a else 0) + allowance_c ac c.
 
-Definition total_viol (cl : nat) (ncur : N) (ch : list (key * Z * Z)) (allow : Z) (slack : Z) : list (nat * Z * Z) :=
+Definition total_viol (cl : nat) (ncur : N) (ch : list (key * Z * Z)) (ac : list (N * Z)) (allow : Z) (slack : Z) : list (nat * Z * Z) :=
+  let allowance := allowance ac in
   flat_map (fun c => let d := wdelta (tw c) ch in
                      if allowance c allow <? d
                      then [(if (c =? CUR_OLT)%N && (d <=? allowance c allow + slack) then (cl + 10)%nat else cl, Z.of_N c, d)]
@@ -103,7 +108,7 @@ Definition claim_viol (kind : N) (sch : list (key * Z * Z)) : list (nat * Z * Z)
   then flat_map (fun x => if (k_bucket x.1.1 =? B_VREWBAL)%N && (x.1.2 <? x.2) then [(8%nat, Z.of_N (k_owner x.1.1), x.2 - x.1.2)] else []) sch
   else [].
 
-Record mstate := { m_side : ledger ; m_cur : ledger ; m_bch : list (key * Z * Z) ; m_ballow : Z ; m_bauth : list N ;
+Record mstate := { m_ballowc : list (N * Z) ; m_side : ledger ; m_cur : ledger ; m_bch : list (key * Z * Z) ; m_ballow : Z ; m_bauth : list N ;
                    m_bslack : Z ; m_taint : list (key * nat) ; m_bkauth : list N }.
 
 Definition step_viol (c : case) (m : mstate) (s : step) : list (nat * Z * Z) * mstate :=
@@ -125,18 +130,19 @@ Definition step_viol (c : case) (m : mstate) (s : step) : list (nat * Z * Z) * m
   let kauth := if trig_neg_withdraw_funds s
                then map (fun x => k_owner x.1.1) (filter (fun x => (k_bucket x.1.1 =? B_BAL)%N && (x.2 <? x.1.2)) ch) else [] in
   let bkauth := kauth ++ (if fresh then [] else m_bkauth m) in
-  let v1 := if (kind =? 1)%N then total_viol 1 (c_ncur c) ch 0 0
-            else if (kind =? 0)%N then total_viol 2 (c_ncur c) ch (s_allow s) 0
-            else total_viol 3 (c_ncur c) ch 0 slack in
+  let ballowc := s_allowc s ++ (if fresh then [] else m_ballowc m) in
+  let v1 := if (kind =? 1)%N then total_viol 1 (c_ncur c) ch (s_allowc s) 0 0
+            else if (kind =? 0)%N then total_viol 2 (c_ncur c) ch (s_allowc s) (s_allow s) 0
+            else total_viol 3 (c_ncur c) ch (s_allowc s) 0 slack in
   let sch := changes (m_side m) (s_side s) in
   let v5 := neg_viol taint (s_upd s) ++ neg_viol [] (s_side s) ++ claim_viol kind sch in
   let v7 := debit_viol 7 (c_eoa c) (c_ncur c) ch (s_auth s) kauth in
   let vblock := if (kind =? 2)%N
-                then total_viol 4 (c_ncur c) bch ballow bslack
+                then total_viol 4 (c_ncur c) bch ballowc ballow bslack
                      ++ debit_viol 6 (c_eoa c) (c_ncur c) bch bauth bkauth
                 else [] in
   (v1 ++ v5 ++ v7 ++ vblock,
-   {| m_side := apply_upd (m_side m) (s_side s) ; m_cur := after ; m_bch := bch ; m_ballow := ballow ; m_bauth := bauth ; m_bslack := bslack ; m_taint := taint ; m_bkauth := bkauth |}).
+   {| m_ballowc := ballowc ; m_side := apply_upd (m_side m) (s_side s) ; m_cur := after ; m_bch := bch ; m_ballow := ballow ; m_bauth := bauth ; m_bslack := bslack ; m_taint := taint ; m_bkauth := bkauth |}).
 
 Fixpoint monitor (c : case) (i : nat) (m : mstate) (ss : list step) : list (nat * nat * Z * Z) :=
   match ss with
@@ -148,7 +154,7 @@ Fixpoint monitor (c : case) (i : nat) (m : mstate) (ss : list step) : list (nat 
 Definition case_monitor (c : case) : list (nat * nat * Z * Z) :=
   let g := apply_upd ∅ (c_gen c) in
   map (fun x => (0%nat, x.1.1, x.1.2, x.2)) (neg_viol [] (c_gen c) ++ neg_viol [] (c_gen_side c)) ++
-  monitor c 1 {| m_side := apply_upd ∅ (c_gen_side c) ; m_cur := g ; m_bch := [] ; m_ballow := 0 ; m_bauth := [] ; m_bslack := 0 ; m_taint := [] ; m_bkauth := [] |} (c_steps c).
+  monitor c 1 {| m_ballowc := [] ; m_side := apply_upd ∅ (c_gen_side c) ; m_cur := g ; m_bch := [] ; m_ballow := 0 ; m_bauth := [] ; m_bslack := 0 ; m_taint := [] ; m_bkauth := [] |} (c_steps c).
 
 Fixpoint monitor_all (i : nat) (cs : list case) : list Z :=
   match cs with
